@@ -301,10 +301,9 @@ let () =
                 let value tok = match parse_f32 tok with Some b -> b | None -> F32.zero in
                 run_case ~fmt ~mode ~get ~obs_field ~k
                   ~cell:f32_of_bits_cached ~ceqb:(fun (a : F32.t) b -> a = b) ~zero:F32.zero ~value ~alphabet
-                  (* the hypotheses of reader_roundtrip_uniprobe hold for what the generator printed (files with a
-                     white-space suffix are outside the theorem: checked against the model only) *)
-                  ~wf_extra:(fun rs pre suf ->
-                      suf <> [] || (List.for_all (wf_uniprobe alphabet parse_f32) rs && wf_blank_prefix pre))
+                  (* the hypotheses of reader_roundtrip_uniprobe hold for what the generator printed
+                     (wf_suffix suf is checked by the caller) *)
+                  ~wf_extra:(fun rs pre _ -> List.for_all (wf_uniprobe alphabet parse_f32) rs && wf_blank_prefix pre)
                   ~model_stop:(fun cs -> uniprobe_read alphabet parse_f32 cs)
                   ~model_calls:(fun n cs -> uniprobe_calls alphabet parse_f32 false (nat_of_int n) cs)
             | _ -> "OK"   (* a case of another group *)
